@@ -1447,6 +1447,11 @@ func ruleReject(c *Ctx) {
 					}
 				}
 			}
+			if !good && fname(fn) == "op.DynamicSign.UnmarshalYAML" {
+				if p, ok := c.dynamicDecoderRefusesUnknown(); ok && p == "" {
+					good = true
+				}
+			}
 			c.check(good, fname(fn)+" -> op.NewDynamicSign|unknown", c.pos(ci.Pos()), fname(fn), "an unknown dynamic sign is an error here", "the result of NewDynamicSign is not checked against UnknownDynamicSign here (or an unknown sign is answered with the `not given` sentinel and dropped): an unknown dynamic (e.g. --velocity fff, {vel=forte}) is played with velocity 0, which turns every note-on into a note-off, or is silently ignored")
 		}
 	}
@@ -1470,10 +1475,48 @@ func ruleReject(c *Ctx) {
 				}
 			}
 		})
+		if !good {
+			// the test may be written another way (a range check, a predicate): decided by folding the decoder on texts
+			if p, ok := c.dynamicDecoderRefusesUnknown(); ok && p == "" {
+				good = true
+			}
+		}
 		c.check(good, "op.DynamicSign.UnmarshalYAML|unknown", c.pos(fn.Pos()), fname(fn), "an unknown dynamic is refused", "an unknown dynamic sign is no longer an error when read from YAML")
 	} else {
 		c.missing("op.DynamicSign.UnmarshalYAML")
 	}
+}
+
+// dynamicDecoderRefusesUnknown folds op.DynamicSign.UnmarshalYAML on scalar nodes: the signs the table knows are read
+// (no error), every other text - fff, forte, FF, 100, the empty text - is refused. ok=false when it does not fold.
+func (c *Ctx) dynamicDecoderRefusesUnknown() (string, bool) {
+	fn := c.fn("op", "DynamicSign.UnmarshalYAML")
+	if fn == nil || len(fn.Params) != 2 {
+		return "", false
+	}
+	for _, probe := range []struct {
+		text   string
+		refuse bool
+	}{{"mf", false}, {"pp", false}, {"ff", false}, {"fff", true}, {"forte", true}, {"FF", true}, {"100", true}, {"", true}, {" mf", true}} {
+		fd := c.newFolder()
+		fd.maxSteps, fd.maxDepth = 20000, 8
+		heap := map[*ssa.Alloc]fval{}
+		fd.heap = heap
+		recv, node := new(ssa.Alloc), new(ssa.Alloc)
+		heap[recv] = fval{k: constant.MakeInt64(0), t: types.Typ[types.Int]}
+		heap[node] = fval{fields: map[string]fval{"Value": {k: constant.MakeString(probe.text), t: types.Typ[types.String]}, "Kind": {k: constant.MakeInt64(8)}, "Tag": {k: constant.MakeString("!!str"), t: types.Typ[types.String]}}}
+		r, err := fd.foldCallEnv(fn, []fval{{addr: &faddr{base: recv}}, {addr: &faddr{base: node}}}, nil, heap)
+		if err != nil || !(r.isNil || r.nonNil) {
+			return "", false
+		}
+		if r.nonNil != probe.refuse {
+			if probe.refuse {
+				return fmt.Sprintf("the dynamic %q is read from YAML without an error", probe.text), true
+			}
+			return fmt.Sprintf("the dynamic %q is refused when read from YAML", probe.text), true
+		}
+	}
+	return "", true
 }
 
 // ---------------------------------------------------------------------------
@@ -1652,6 +1695,18 @@ func (c *Ctx) runsWithoutInput(fn *ssa.Function) bool {
 	if len(fn.Params) != 0 || len(fn.FreeVars) != 0 || fn.Parent() != nil {
 		return false
 	}
+	if c.inputFree == nil {
+		c.inputFree = map[*ssa.Function]bool{}
+	}
+	if r, ok := c.inputFree[fn]; ok {
+		return r
+	}
+	r := c.runsWithoutInputUncached(fn)
+	c.inputFree[fn] = r
+	return r
+}
+
+func (c *Ctx) runsWithoutInputUncached(fn *ssa.Function) bool {
 	fd := c.newFolder()
 	fd.maxSteps = 400000
 	fd.maxDepth = 12
@@ -1660,6 +1715,31 @@ func (c *Ctx) runsWithoutInput(fn *ssa.Function) bool {
 		fmt.Fprintf(os.Stderr, "runsWithoutInput(%s): %v failed=%v incomplete=%v\n", fname(fn), err, fd.failedCalls, fd.incomplete)
 	}
 	return err == nil && len(fd.failedCalls) == 0 && len(fd.incomplete) == 0 && fd.panicked == ""
+}
+
+// reachedOnlyWithoutInput: fn takes parameters, but every one of its callers (up to three levels up) is a function
+// without input that folds to its end with every call followed - fn included, on the values it is handed there.
+func (c *Ctx) reachedOnlyWithoutInput(fn *ssa.Function, depth int) bool {
+	if depth > 3 || fn.Parent() != nil {
+		return false
+	}
+	node := c.callGraph().Nodes[fn]
+	if node == nil || len(node.In) == 0 {
+		return false
+	}
+	for _, e := range node.In {
+		caller := e.Caller.Func
+		if caller == nil || !c.isRepoFunc(caller) || caller == fn {
+			return false
+		}
+		if caller.Synthetic != "" && caller.Name() != "init" {
+			return false
+		}
+		if !(c.runsWithoutInput(caller) || c.reachedOnlyWithoutInput(caller, depth+1)) {
+			return false
+		}
+	}
+	return true
 }
 
 func ruleMust(c *Ctx) {
@@ -1889,7 +1969,7 @@ func ruleMust(c *Ctx) {
 			default:
 				if why, ok := reviewedMustSites[key]; ok {
 					c.ok(key, c.pos(ci.Pos()), caller, "reviewed: "+why)
-				} else if c.runsWithoutInput(fn) {
+				} else if c.runsWithoutInput(fn) || c.reachedOnlyWithoutInput(fn, 0) {
 					c.ok(key, c.pos(ci.Pos()), caller, "the caller takes no input and was folded to its end, every call followed: it does not panic")
 				} else {
 					c.bad(key, c.pos(ci.Pos()), caller, fmt.Sprintf("%s panics on invalid input and is called here with a value that is not a compile-time constant: a user-supplied value (flag, YAML field, text metadata) that is well-formed but unsupported crashes crd instead of producing an error", cn))
